@@ -494,7 +494,10 @@ class DeserializationMethodVisitor(
                         )
                     )
             object_constraints = constraints_validators(constraints)[dict]
-            all_alliases = set(alias_by_name.values())
+            # aggregate fields have no key of their own in the data
+            all_alliases = {
+                alias_by_name[field.name] for field in fields if not field.is_aggregate
+            }
             constructor: Optional[Constructor] = None
             if is_typed_dict(cls):
                 constructor = NoConstructor(cls)
